@@ -11,9 +11,44 @@ def sh(cmd, cwd=None, env=None, timeout=3600):
     r = subprocess.run(cmd, shell=True, cwd=cwd, env=e, text=True, capture_output=True, timeout=timeout)
     return r.returncode, r.stdout + r.stderr
 
+def run_checks(name, wt, checks, meta):
+    res = meta.get("checks", {})
+    for c in checks:
+        t0 = time.time()
+        r = subprocess.run(["/verif/check", c, "quick"], text=True, capture_output=True, env=dict(os.environ, VERIF_REPO=wt))
+        sig = [l.strip() for l in r.stdout.splitlines() if l.strip().startswith("signature:")][:3]
+        res[c] = {"verdict": {0: "MISSED", 1: "CAUGHT", 2: "INCONCLUSIVE"}.get(r.returncode, str(r.returncode)), "signatures": sig, "wall_s": round(time.time() - t0)}
+        meta["ran"].append(f"VERIF_REPO=<changed tree> ./check {c} quick: {res[c]['verdict']}")
+        print(name, c, res[c], flush=True)
+    meta["checks"] = res
+
+def recheck_only(name, prop, checks):
+    """re-runs checks against an already confirmed seed in /verif/seeded/<name> (after the checks were strengthened)"""
+    dst = f"/verif/seeded/{name}"
+    meta = json.load(open(os.path.join(dst, "meta.json")))
+    wt = f"/tmp/seedchk-{name}"
+    sh(f"git -C /repo worktree remove --force {wt}")
+    shutil.rmtree(wt, ignore_errors=True)
+    rc, out = sh(f"git -C /repo worktree add --detach {wt} HEAD")
+    assert rc == 0, out
+    try:
+        rc, out2 = sh(f"git apply --ignore-whitespace {dst}/patch.diff", cwd=wt)
+        assert rc == 0, "patch does not apply: " + out2
+        run_checks(name, wt, checks, meta)
+        json.dump(meta, open(os.path.join(dst, "meta.json"), "w"), indent=1)
+    finally:
+        sh(f"git -C /repo worktree remove --force {wt}")
+        shutil.rmtree(wt, ignore_errors=True)
+        tag = hashlib.md5(wt.encode()).hexdigest()[:10]
+        shutil.rmtree(f"/tmp/pv-shadow-{tag}", ignore_errors=True)
+
 def main():
     name, prop, src = sys.argv[1], sys.argv[2], sys.argv[3]
-    checks = sys.argv[4:] or [prop]
+    recheck = "--recheck" in sys.argv
+    argv = [a for a in sys.argv if a != "--recheck"]
+    checks = [prop] + [c for c in argv[4:] if c != prop]
+    if recheck:
+        return recheck_only(name, prop, checks if len(argv) > 4 else [prop])
     wt = f"/tmp/seedchk-{name}"
     sh(f"git -C /repo worktree remove --force {wt}")
     shutil.rmtree(wt, ignore_errors=True)
@@ -47,15 +82,7 @@ def main():
         os.remove(os.path.join(wt, "tests", "seed_demo.rs"))
         shutil.rmtree(os.path.join(wt, "target"), ignore_errors=True)
         meta["confirmed"] = bool(ok_without and suite_ok and fails_with)
-        res = {}
-        for c in checks:
-            t0 = time.time()
-            r = subprocess.run(["/verif/check", c, "quick"], text=True, capture_output=True, env=dict(os.environ, VERIF_REPO=wt))
-            sig = [l.strip() for l in r.stdout.splitlines() if l.strip().startswith("signature:")][:3]
-            res[c] = {"verdict": {0: "MISSED", 1: "CAUGHT", 2: "INCONCLUSIVE"}.get(r.returncode, str(r.returncode)), "signatures": sig, "wall_s": round(time.time() - t0)}
-            meta["ran"].append(f"VERIF_REPO=<changed tree> ./check {c} quick: {res[c]['verdict']}")
-            print(name, c, res[c], flush=True)
-        meta["checks"] = res
+        run_checks(name, wt, checks, meta)
         dst = f"/verif/seeded/{name}"
         os.makedirs(dst, exist_ok=True)
         shutil.copy(patch, os.path.join(dst, "patch.diff"))
